@@ -6,8 +6,50 @@ translated dispatcher.  A changed branch condition, key, gate, order or answer i
 definition and these proofs stop checking.
 -/
 import PrimaiteModel.Props.C17
+import PrimaiteModel.Gen.DatabaseTr
 namespace Primaite.Database
 open Primaite.Gen
+
+/-! ## 9. The translated source equals the model (`Gen/DatabaseTr.lean`, harness/extract/database_tr.py)
+
+`_process_sql`, `_process_connect` and `IOSoftware.add_connection` are translated statement by statement from the source on
+every run; the theorems below prove the translated functions equal to the hand-written model for every server state and
+every argument.  A changed guard, operator, status code, branch order or written value in the source changes the generated
+definition and these proofs stop checking. -/
+
+set_option linter.unusedSimpArgs false in
+/-- `_process_sql` as translated = the model's `processSql`, and an answer carries the query's uuid (which is what the
+client counts as success) exactly when its status is 200. -/
+theorem C17_tr_process_sql (s : Server) (q : Sql) :
+    ((DatabaseTr.processSql s q).1, (DatabaseTr.processSql s q).2.1) = processSql s q ∧
+    (DatabaseTr.processSql s q).2.2 = ((DatabaseTr.processSql s q).2.1 == 200) := by
+  unfold DatabaseTr.processSql processSql
+  cases hf : s.file with
+  | none => simp
+  | some fh =>
+    by_cases hh : s.health = .good
+    · cases q <;> cases fh <;> simp [hh]
+    · simp [hh]
+
+set_option linter.unusedSimpArgs false in
+/-- `_process_connect` (with `add_connection` inlined) as translated = the model's `processConnect`, for every server
+state in which the id about to be issued is not in the table (uuid4 freshness; `C17_tr_fresh_of_wf`); the id is visible
+to the client only when `response` is true, and `response` is `status_code == 200`. -/
+theorem C17_tr_process_connect (s : Server) (owner : Nat) (pw : Option Nat) (hfresh : s.hasConn s.nextId = false) :
+    ((DatabaseTr.processConnect s owner pw).1, (DatabaseTr.processConnect s owner pw).2.1,
+      if (DatabaseTr.processConnect s owner pw).2.2.1 then (DatabaseTr.processConnect s owner pw).2.2.2 else none)
+      = processConnect s owner pw ∧
+    (DatabaseTr.processConnect s owner pw).2.2.1 = ((DatabaseTr.processConnect s owner pw).2.1 == 200) := by
+  unfold DatabaseTr.processConnect DatabaseTr.addConnection processConnect healthAcceptsConnect
+  have hfresh' : Server.hasConn { s with nextId := s.nextId + 1 } s.nextId = false := hfresh
+  by_cases h1 : s.op = .running
+  · by_cases h3 : s.password = pw
+    · by_cases h4 : s.maxSessions ≤ s.conns.length
+      · cases hh : s.health <;> simp [h1, h3, h4, hh]
+      · cases hh : s.health <;> simp [h1, h3, h4, hh, hfresh', Server.hasConn] <;> simp_all [Server.hasConn]
+    · cases hh : s.health <;> simp [h1, h3, hh]
+  · simp [h1]
+
 
 /-- `terminate_connection(id, send_disconnect=False)` as translated: the entries with that id are removed, nothing else. -/
 theorem C17_tr_terminate (s : Server) (cid : Option Nat) :
@@ -185,65 +227,57 @@ is checked BEFORE the live file is deleted (F-33), and the live file is replaced
 theorem C17_tr_backup (s : Server) (b : Backup) (pq big : Bool) :
     DatabaseTr.backupDatabase s b pq big = backupDatabase s b pq big := by
   unfold DatabaseTr.backupDatabase backupDatabase
-  cases hc : s.canAct
-  · simp
-  · cases hbc : s.backupConfigured
-    · simp
-    · cases hft : s.ftpc
-      · simp
-      · cases hf : s.file
-        · simp
-        · simp only [Bool.not_true, Bool.false_eq_true, if_false, Option.isSome_some, Option.isNone_some]
-          cases hr : (ftpSendFile s b pq big).2.2
-          · simp only [Bool.false_eq_true, if_false]; rw [← hr]
-          · simp only [if_true]; rw [← hr]
+  dsimp only
+  generalize ftpSendFile s b pq big = r
+  obtain ⟨s', b', resp⟩ := r
+  cases hc : s.canAct <;> cases hbc : s.backupConfigured <;> cases hft : s.ftpc <;> cases hf : s.file <;>
+    simp only [Bool.not_true, Bool.not_false, Bool.false_eq_true, if_true, if_false, Option.isSome_some, Option.isNone_some,
+      Option.isSome_none, Option.isNone_none, Server.ftpcAct] <;> try rfl
+  cases resp <;> rfl
 
-/-- removing the leftover if there is one = having no leftover -/
+/-- removing the leftover if there is one = having no leftover (the deleted copies record what was removed) -/
 theorem leftover_removed (s : Server) :
-    (if s.downloads.isSome then { s with downloads := none } else s) = { s with downloads := none } := by
+    (if s.downloads.isSome then { s with downloads := none, dlDeleted := s.dlDeleted ++ s.downloads.toList } else s)
+      = { s with downloads := none, dlDeleted := s.dlDeleted ++ s.downloads.toList } := by
   cases hd : s.downloads with
   | some d => simp
   | none => simp only [Option.isSome_none, Bool.false_eq_true, if_false]; cases s; simp_all
 
-/-- the replacement step as translated (arrival check, "file not initialised" check, delete the live file unless it is
-deleted already, copy the download in, check, set GOOD) = the model's -/
+/-- the replacement step as translated (arrival check, delete the live file unless it is deleted already, copy the download
+in, check, set GOOD) = the model's -/
 theorem restore_tail (s' : Server) :
     (if s'.downloads.isNone = true then (s', false)
-     else if false = true then (s', false)
      else
-       (let s := if s'.file.isNone = true then s' else { s' with file := none }
+       (let s := if s'.file.isNone = true then s' else { s' with file := none, fileDeleted := s'.fileDeleted ++ s'.file.toList }
         let s := match s.downloads with | some d => { s with file := some d, folder := true } | none => s
         if s.file.isNone = true then (s, false) else (let s := { s with health := Health.good }; (s, true))))
     = (match s'.downloads with
        | none => (s', false)
-       | some d => ({ s' with file := some d, folder := true, health := .good }, true)) := by
-  cases hd : s'.downloads <;> cases hf : s'.file <;> simp [hd, hf]
+       | some d => ({ s' with file := some d, folder := true, health := .good,
+                              fileDeleted := s'.fileDeleted ++ s'.file.toList }, true)) := by
+  cases hd : s'.downloads with
+  | none => simp only [Option.isNone_none, if_true]
+  | some d =>
+    simp only [Option.isNone_some, Bool.false_eq_true, if_false]
+    cases hf : s'.file with
+    | none =>
+      simp only [Option.isNone_none, if_true, hd, Option.isNone_some, Bool.false_eq_true, if_false, Option.toList_none, List.append_nil]
+    | some h =>
+      simp only [Option.isNone_some, Bool.false_eq_true, if_false, hd, Option.toList_some]
 
 theorem C17_tr_restore (s : Server) (b : Backup) (pq pr k : Bool) :
     DatabaseTr.restoreBackup s b pq pr k = restoreBackup s b pq pr k := by
   unfold DatabaseTr.restoreBackup restoreBackup
   rw [leftover_removed]
-  by_cases h1 : (!s.canAct) = true
-  · simp only [if_pos h1]
-  · simp only [if_neg h1]
-    by_cases h2 : (!s.backupConfigured) = true
-    · simp only [if_pos h2]
-    · simp only [if_neg h2]
-      by_cases h3 : s.ftpc.isNone = true
-      · have h3' : (!s.ftpc.isSome) = true := by
-          cases h : s.ftpc
-          · rfl
-          · rw [h] at h3; cases h3
-        simp only [if_pos h3, if_pos h3']
-      · have h3' : ¬ (!s.ftpc.isSome) = true := by
-          cases h : s.ftpc
-          · rw [h] at h3; exact absurd rfl h3
-          · simp
-        simp only [if_neg h3, if_neg h3']
-        generalize ftpRequestFile { s with downloads := none } b pq pr k = r
-        obtain ⟨s', resp⟩ := r
-        cases resp
-        · rfl
-        · exact restore_tail s'
+  dsimp only
+  -- the transfer is opaque from here on; then the guards (in whatever order the source asks them) are decided by cases
+  generalize ftpRequestFile { s with downloads := none, dlDeleted := s.dlDeleted ++ s.downloads.toList } b pq pr k = r
+  obtain ⟨s', resp⟩ := r
+  cases hc : s.canAct <;> cases hbc : s.backupConfigured <;> cases hft : s.ftpc <;>
+    simp only [Bool.not_true, Bool.not_false, Bool.false_eq_true, if_true, if_false, Option.isSome_some, Option.isNone_some,
+      Option.isSome_none, Option.isNone_none, Server.ftpcAct] <;> try rfl
+  cases resp
+  · rfl
+  · exact restore_tail s'
 
 end Primaite.Database
